@@ -83,6 +83,10 @@ FUNCS = [
     ("rtrlib/rtr/packets.c", "rtr_pdu_convert_header_byte_order", {"mem": ["pdu"], "writes": True}),
     ("rtrlib/rtr/packets.c", "rtr_pdu_header_to_host_byte_order", {"mem": ["pdu"], "writes": True}),
     ("rtrlib/rtr/packets.c", "rtr_pdu_header_to_network_byte_order", {"mem": ["pdu"], "writes": True}),
+    ("rtrlib/rtr/packets.c", "rtr_wait_for_sync", {"xworld": "struct rtr_socket", "localbuf": "pdu"}),
+    ("rtrlib/rtr/packets.c", "rtr_sync", {"xworld": "struct rtr_socket", "localbuf": "pdu"}),
+    ("rtrlib/rtr/packets.c", "rtr_send_serial_query", {"xworld": "struct rtr_socket"}),
+    ("rtrlib/rtr/packets.c", "rtr_send_reset_query", {"xworld": "struct rtr_socket"}),
 ]
 
 LISTED = set(f[1] for f in FUNCS)
@@ -125,6 +129,11 @@ EXTERNX = {
     "pthread_setcancelstate": {"ret": True, "args": [0]},
     "pthread_cancel": {"ret": True}, "pthread_join": {"ret": True},
     "lrtr_get_monotonic_time": {"ret": True, "out64": 0},
+    "rtr_receive_pdu": {"ret": True, "inout": 0, "outbuf": 1, "args": [2, 3]},
+    "rtr_send_pdu": {"ret": True, "recstruct": 1, "args": [2]},
+    "rtr_handle_error_pdu": {"ret": True, "inout": 0}, "rtr_handle_cache_response_pdu": {"ret": True, "inout": 0},
+    "rtr_send_error_pdu_from_host": {"ret": True, "args": [2, 3]},
+    "rtr_sync_receive_and_store_pdus": {"ret": True, "inout": 0}, "rtr_set_last_update": {"ret": True, "inout": 0},
 }
 NORETURN = {"pthread_exit"}
 
@@ -214,6 +223,13 @@ def parse_type_str(s):
         if e is None:
             return None
         return Ty("array", elem=e, n=int(m.group(2)) if m.group(2) else 0)
+    m = re.match(r"^(.*\S)\s*\[([A-Za-z_][A-Za-z0-9_]*)\]$", s)
+    if m and m.group(2) in CUR_CONSTS:
+        # an array whose size is a `static const` object of the tree (formally a variable-length array)
+        e = parse_type_str(m.group(1))
+        if e is None:
+            return None
+        return Ty("array", elem=e, n=CUR_CONSTS[m.group(2)])
     if s.endswith("*"):
         inner = s[:-1].strip()
         e = parse_type_str(inner)
@@ -335,6 +351,7 @@ class TU:
                     v = 0                         # file-scope object without initialiser: zero
                 if v is not None:
                     self.globals[n["name"]] = (v, n["type"])
+                    CUR_CONSTS[n["name"]] = v
 
     def index_record(self, n, forced_name):
         tag = n.get("tagUsed", "struct")
@@ -367,6 +384,7 @@ class TU:
 
 
 CUR_ENUMS = {}
+CUR_CONSTS = {}
 
 
 def const_value(n):
@@ -691,7 +709,7 @@ class Fn:
         ps = []
         if self.uses_world:
             ps.append("(w : %s)" % self.world_type())
-        if self.uses_mem:
+        if self.uses_mem and not getattr(self, "mem_is_local", False):
             ps.append("(mem : Nat → BitVec 8) (msize : Nat)")
         for name, ty, mode in self.params:
             if mode == "mem":
@@ -1293,7 +1311,7 @@ class Fn:
     def state_var(self):
         """the in/out parameter that holds the record the external calls may change"""
         for pn, pty, mode in self.root.params:
-            if mode == "inout" and pty.elem.kind == "struct" and pty.elem.name == self.root.xstate:
+            if mode in ("inout", "value") and pty.elem.kind == "struct" and pty.elem.name == self.root.xstate:
                 return pn
         bad("function over an XWorld has no in/out parameter of type %s" % self.root.xstate)
 
@@ -1315,10 +1333,32 @@ class Fn:
             a = self.expr(args[spec["inout"]], env)
             if not (a.ty.kind == "ptr" and (a.ty.name or "") == "valueptr:" + sv):
                 bad("'%s' must be called with the record parameter itself" % name, n)
+        if "recstruct" in spec:
+            a = args[spec["recstruct"]]
+            while a.get("kind") in ("ImplicitCastExpr", "ParenExpr", "CStyleCastExpr"):
+                a = a["inner"][-1]
+            if a.get("kind") != "UnaryOperator" or a.get("opcode") != "&":
+                bad("'%s' needs &record" % name, n)
+            pth = self.lvalue_path(a["inner"][0], env)
+            if pth["ty"].kind != "struct":
+                bad("'%s' needs the address of a record" % name, n)
+            sinfo = struct_info(self.tu, pth["ty"].name)
+            for f in sinfo["order"]:
+                kind, fty = sinfo["fields"][f]
+                if kind != "scalar" or fty.kind != "int":
+                    bad("record passed to '%s' has a member that is not an integer" % name, n)
+                key = self.path_key(pth) + "." + lname(f)
+                if self.vars[pth["root"]]["mode"] == "local" and not any(key == d or key.startswith(d + ".") for d in env["defined"]):
+                    gs.append("false")          # a member that no statement assigned is handed to the callee
+                rec.append("(BitVec.setWidth 64 %s.%s)" % (self.path_text(pth), lname(f)))
         tmp = self.fresh("r")
         lines = []
         if "inout" in spec:
             lines.append("let %s : %s := st_" % (self.ln(sv), struct_lean_name(self.root.xstate)))
+        if "outbuf" in spec:
+            if not self.uses_mem:
+                bad("'%s' fills a buffer but the function has no memory object" % name, n)
+            lines.append("let mem : Nat → BitVec 8 := C.memOfBytes buf_")
         env2 = copy_env(env)
         if "out64" in spec:
             a = args[spec["out64"]]
@@ -1345,6 +1385,9 @@ class Fn:
         else:
             n["_hoisted"] = V("()", Ty("void"))
         body = "\n".join(lines + [k(env2)])
+        if "outbuf" in spec:
+            call = 'C.xcallBuf w "%s" [%s] %s' % (name, ", ".join(rec), self.ln(sv))
+            return self.guarded(gs, "match %s with\n| (rc_, aux_, st_, buf_, w) =>\n%s" % (call, indent(body, 2)))
         call = 'C.xcall w "%s" [%s] %s' % (name, ", ".join(rec), self.ln(sv))
         return self.guarded(gs, "match %s with\n| (rc_, aux_, st_, w) =>\n%s" % (call, indent(body, 2)))
 
@@ -1588,6 +1631,23 @@ class Fn:
                 d = decls[j]
                 ty = parse_type(d["type"])
                 name = d["name"]
+                if ty.kind == "array" and ty.elem.kind == "int" and ty.elem.bits == 8 and ty.n > 0 and self.root.opts.get("localbuf") == name:
+                    # the receive buffer: the one memory object of this function (contents unspecified until a callee fills it;
+                    # modelled as zeros - the translated functions read it only after the receive call)
+                    if self.uses_mem:
+                        bad("a second memory object", d)
+                    self.root.uses_mem = True
+                    self.root.mem_is_local = True
+                    self.vars[name] = {"ty": Ty("ptr", elem=ty.elem), "mode": "mem"}
+                    env2 = copy_env(env)
+                    env2["defined"].add(name)
+                    return ("let mem : Nat → BitVec 8 := fun _ => 0#8\nlet msize : Nat := %d\nlet %s : Nat := 0\n%s"
+                            % (ty.n, self.ln(name), go(j + 1, env2)))
+                if ty.kind == "array" and ty.elem.kind == "int" and ty.elem.bits == 8 and any(
+                        c.get("kind") == "StringLiteral" for c in d.get("inner", [])):
+                    # a message text: only ever handed to a callee that is not translated
+                    self.vars[name] = {"ty": ty, "mode": "opaque"}
+                    return go(j + 1, env)
                 if ty.kind == "struct":
                     struct_info(self.tu, ty.name)
                 elif ty.kind == "ptr":
@@ -1643,6 +1703,7 @@ class Fn:
             inner = s["inner"]
             cond, th = inner[0], inner[1]
             el = inner[2] if len(inner) > 2 else None
+            self.clear_hoists(cond)
 
             def fin(env2):
                 c = self.as_bool(self.expr(cond, env2, "bool"))
@@ -1699,8 +1760,10 @@ class Fn:
             if "cont" not in ctx:
                 bad("continue outside a loop", s)
             return ctx["cont"](env)
-        if k in ("DoStmt", "GotoStmt", "LabelStmt"):
-            bad("do-loops and jumps are not translated", s)
+        if k == "DoStmt":
+            return self.loop(s, env, ctx, cond=s["inner"][1], body=s["inner"][0], inc=None, test_first=False)
+        if k in ("GotoStmt", "LabelStmt"):
+            bad("jumps are not translated", s)
         bad("unsupported statement", s)
 
     def var_lean_type(self, name):
@@ -1717,6 +1780,7 @@ class Fn:
         returns the function's result.  Running out of fuel is `none` (a loop that does not terminate has no result)."""
         if self.prefix:
             bad("loop inside an inlined helper", s)
+        self.clear_hoists(cond)
         self.root.nloops += 1
         lname_ = "%s.loop%d" % (self.name, self.root.nloops)
         live = sorted(v for v in env["defined"] if v in self.vars and "alias" not in self.vars[v])
@@ -1751,12 +1815,27 @@ class Fn:
             b_txt = self.stmt(body, copy_env(env2), inner_ctx)
             a_txt = after(copy_env(env2))
             return self.guarded(c.guards, "if %s then\n%s\nelse\n%s" % (c.text, indent(paren(b_txt), 2), indent(paren(a_txt), 2)))
+        if not test_first:
+            # do { body } while (cond): the body first; the test decides between another round and what follows.
+            # Variables declared in the body are not in scope of the test in C, but clang resolves the names; the
+            # variables carried to the next round are those live before the loop.
+            def test(env2):
+                def fin2(env3):
+                    c = self.as_bool(self.expr(cond, env3, "bool"))
+                    return self.guarded(c.guards, "if %s then\n%s\nelse\n%s" % (c.text, indent(paren(again(env3)), 2), indent(paren(after(copy_env(env3))), 2)))
+                return self.with_calls([cond], env2, fin2)
+            inner_ctx = dict(ctx, next=test, brk=lambda env2: after(env2), cont=test)
+            fin = None
+        def whole(env_x):
+            if test_first:
+                return self.with_calls([cond], env_x, fin)
+            return self.stmt(body, copy_env(env_x), inner_ctx)
         if stepwise:
             if self.root.done_wrap:
                 bad("nested stepwise loops", s)
             self.root.done_wrap = True
             try:
-                body_txt = self.with_calls([cond], env_in, fin)
+                body_txt = whole(env_in)
             finally:
                 self.root.done_wrap = False
             tys = []
@@ -1774,7 +1853,7 @@ class Fn:
             self.root.aux.append(d1)
             self.root.aux.append(d2)
             return "%s C.FUEL %s" % (lname_, " ".join(args))
-        body_txt = self.with_calls([cond], env_in, fin)
+        body_txt = whole(env_in)
         d = "def %s %s : Option (%s) :=\n  match fuel with\n  | 0 => none\n  | fuel + 1 =>\n%s" % (
             lname_, " ".join(params), self.root.result_type(), indent(body_txt, 4))
         self.root.aux.append(d)
@@ -1937,6 +2016,7 @@ class Fn:
 
     def switch(self, s, env, ctx):
         cond, body = s["inner"][0], s["inner"][-1]
+        self.clear_hoists(cond)
         if body.get("kind") != "CompoundStmt":
             bad("switch body is not a compound statement", s)
         # flatten: list of (labels, stmt)   labels: list of int or 'default'
